@@ -507,6 +507,37 @@ func (r *Runner) Do(idx int, s Step) *Mismatch {
 		want := r.M.Write(s.Actor, s.Key, "", true)
 		r.Stats.OpClass[s.Op+"/"+kind+"/"+string(Class(err))]++
 		m = r.checkClass(idx, s, err, want)
+	case "faultwrite":
+		api, prefix := [][2]string{{"set", "file/"}, {"set", "fileContent/"}, {"delete", "file/"}, {"setreader", "file/"}, {"setreader", "fileContent/"}}[s.Len%5][0], [][2]string{{"set", "file/"}, {"set", "fileContent/"}, {"delete", "file/"}, {"setreader", "file/"}, {"setreader", "fileContent/"}}[s.Len%5][1]
+		fired := false
+		verif.SetOpFault(func(op, path string) error {
+			if (op == "badger.set" || op == "badger.txn.set") && strings.HasPrefix(path, prefix) {
+				fired = true
+				return errors.New("injected failure of a metadata record write")
+			}
+			return nil
+		})
+		content := Content(s.Tag, 700)
+		var err error
+		switch api {
+		case "set":
+			err = st.Set(ctx, s.Key, content)
+		case "delete":
+			err = st.Delete(ctx, s.Key)
+		default:
+			err = st.SetReader(ctx, s.Key, bytes.NewReader(content))
+		}
+		verif.SetOpFault(nil)
+		r.Stats.OpClass["faultwrite-"+api+"-"+strings.TrimSuffix(prefix, "/")+"/"+kind+"/"+string(Class(err))]++
+		switch {
+		case !fired:
+			// this implementation writes no such record for the call: an ordinary write then
+			m = r.checkClass(idx, s, err, r.M.Write(s.Actor, s.Key, string(content), api == "delete"))
+		case err == nil:
+			return r.mism(idx, s, "", "failed-metadata-write-acknowledged op="+api+" actor="+kind+" record="+prefix, "an error", "ok")
+		case Class(err) != refmodel.OtherErr:
+			return r.mism(idx, s, "", fmt.Sprintf("failed-metadata-write-wrong-class op=%s actor=%s got=%s", api, kind, Class(err)), "an error that is none of the sentinels", fmt.Sprint(err))
+		}
 	case "get":
 		b, err := st.Get(ctx, s.Key)
 		m = r.checkRead(idx, s, "", "get", s.Actor, s.Key, b, err)
